@@ -12,7 +12,8 @@ package tree
 // ---------------------------------------------------------------- invariants (WFsafe of DESIGN.md section 3)
 
 //@ opaque pred kidsOK(n *node) = forall i int :: 0 <= i && i < len(n.children) ==>
-//@      n.children[i] != nil && allocated(n.children[i]) && segOK(n.children[i].segment) && len(n.children[i].segment.Value) > 0
+//@      n.children[i] != nil && allocated(n.children[i]) && allocated(n.children[i].segment) && segOK(n.children[i].segment) && len(n.children[i].segment.Value) > 0 &&
+//@      n.children[i].root == n.root && n.children[i].parent != nil
 // children are ordered by kind: literal < interceptor < regexp < named (the documented priority, C02)
 //@ opaque pred sortedKinds(n *node) = forall i int, j int :: 0 <= i && i < j && j < len(n.children) ==>
 //@      n.children[i].segment.Type <= n.children[j].segment.Type
@@ -20,11 +21,21 @@ package tree
 //@ opaque pred idxOK(n *node) = len(n.indexes) > 0 ==> (len(n.children) >= 5 && n.children[0].segment.Type == 0 &&
 //@      (forall b byte :: in(b, n.indexes) ==> 0 <= n.indexes[b] && n.indexes[b] < len(n.children) && n.children[n.indexes[b]].segment.Type == 0))
 //@ opaque pred hmOK(n *node) = len(n.handlers) > 0 ==> in("", n.handlers) && in("OPTIONS", n.handlers)
-//@ opaque pred nodeSafe(n *node) = n.root != nil && segOK(n.segment) && kidsOK(n) && sortedKinds(n) && idxOK(n) && hmOK(n)
+// only the root of a tree has no parent, and it always has handlers (OPTIONS * and its 405)
+//@ opaque pred parentOK(n *node) = (n.parent == nil ==> len(n.handlers) > 0) && (n.parent != nil ==> allocated(n.parent) && n.parent.root == n.root)
+//@ opaque pred nodeSafe(n *node) = n.root != nil && allocated(n.root) && allocated(n.segment) && segOK(n.segment) && kidsOK(n) && sortedKinds(n) && idxOK(n) && hmOK(n) && parentOK(n)
 //@ opaque pred allSafe() = forall m *node :: nodeSafe(m)
 //@ opaque pred allSafeExcept(x *node) = forall m *node :: m != x ==> nodeSafe(m)
-//@ pred treeOK(t *Tree) = t != nil && t.node != nil && allocated(t.node) && icOK(t.interceptors) && t.methods != nil &&
+// ownership: distinct nodes never share a child array, an index map or a handler map
+//@ opaque pred sepOK() = forall a *node, b *node :: a != b ==>
+//@      (arr(a.children) == 0 || arr(a.children) != arr(b.children)) && (a.indexes == nil || a.indexes != b.indexes) && (a.handlers == nil || a.handlers != b.handlers)
+// what a helper working on node n leaves alone
+//@ pred othersKept(n *node) = forall m *node :: m != n && old(allocated(m)) && old(nodeSafe(m)) ==> nodeSafe(m)
+//@ pred treeOK(t *Tree) = t != nil && allocated(t) && t.node != nil && allocated(t.node) && t.node.root == t && t.node.parent == nil && icOK(t.interceptors) && t.methods != nil &&
 //@      t.optionsBuilder != nil && t.methodNotAllowedBuilder != nil
+//@ pred rootOK(n *node) = n.root != nil && treeOK(n.root)
+// lock discipline (C06): the caller holds the tree's lock in the given mode, or the tree has no lock
+//@ pred lockFree(t *Tree) = t.locker == nil || t.locker.state == 0
 
 // ---------------------------------------------------------------- node.go: read-only
 
@@ -46,7 +57,7 @@ package tree
 // matchChildren: depth-first search below n. A failed search restores the path and leaves no parameter behind.
 //@ fn node.matchChildren
 //@   requires n != nil && allocated(n) && ctx != nil && allSafe()
-//@   ensures [C01,C05] found: result != nil ==> allocated(result) && len(result.handlers) > 0 && ctx.Path == ""
+//@   ensures [C01,C05] found: result != nil ==> allocated(result) && len(result.handlers) > 0 && ctx.Path == "" && result.root == n.root
 //@   ensures [C01] restore-path: result == nil ==> ctx.Path == old(ctx.Path)
 //@   ensures [C01] no-leftover: result == nil ==> (forall x string :: in(x, ctx.params) ==> old(in(x, ctx.params)) && ctx.params[x] == old(ctx.params[x]))
 //@   inv 1 [C05] idx: 0 <= i
@@ -54,15 +65,15 @@ package tree
 //@   inv 1 [C01] no-leftover: forall x string :: in(x, ctx.params) ==> old(in(x, ctx.params)) && ctx.params[x] == old(ctx.params[x])
 //
 //@ fn node.find
-//@   requires n != nil && allSafe()
+//@   requires n != nil && allocated(n) && allSafe()
 //@   nopanic
-//@   ensures [C10,C03] allocated: result != nil ==> allocated(result)
+//@   ensures [C10,C03] allocated: result != nil ==> allocated(result) && result.root == n.root && result.parent != nil
 //@   inv 1 [C05] bound: -1 <= rangeindex && rangeindex < len(n.children)
 //
 //@ fn Tree.Find
 //@   requires treeOK(tree) && allSafe()
 //@   nopanic
-//@   ensures [C10,C03] allocated: result != nil ==> allocated(result)
+//@   ensures [C10,C03] allocated: result != nil ==> allocated(result) && result.root == tree && result.parent != nil
 //
 //@ fn Tree.Name
 //@   requires tree != nil
@@ -73,7 +84,7 @@ package tree
 
 // Handler: the node/handler pair handed to the router.
 //@ fn Tree.Handler
-//@   requires treeOK(tree) && ctx != nil && allSafe()
+//@   requires treeOK(tree) && ctx != nil && allSafe() && lockFree(tree)
 //@   ensures [C18] trace: tree.hasTrace && method == "TRACE" ==> result2 && result1 == tree.trace && result0 == box(tree.node)
 //@   ensures [C01,C05] served: result2 && !(tree.hasTrace && method == "TRACE") ==> typeis(result0, "*node") &&
 //@        allocated(unbox(result0, "*node")) && in(method, unbox(result0, "*node").handlers) && result1 == unbox(result0, "*node").handlers[method]
@@ -96,26 +107,35 @@ package tree
 //@ axiom forall a *node, b *node :: pure0("slices.cmp", funcval("tree.node.sort$1"), a, b) == prio(a) - prio(b)
 //
 //@ fn node.buildIndexes
-//@   requires n != nil && kidsOK(n) && sortedKinds(n)
+//@   requires n != nil && allocated(n) && kidsOK(n) && sortedKinds(n) && sepOK()
 //@   nopanic
 //@   modifies tree.node.indexes: n
+//@   modifies map[byte]int: n.indexes
 //@   ensures [C03,C05,C01] index-ok: idxOK(n)
+//@   ensures [C03,C05] sep: sepOK()
+//@   ensures [C03,C05] own-map: n.indexes == nil || fresh(n.indexes) || n.indexes == old(n.indexes)
 //@   inv 1 [C05] bound: -1 <= rangeindex && rangeindex < len(n.children) && n.indexes != nil && len(n.children) >= 5
+//@   inv 1 [C03,C05] frame: unchangedMaps("map[byte]int", n.indexes) && (n.indexes == old(n.indexes) || fresh(n.indexes))
 //@   inv 1 [C03,C05,C01] partial: forall b byte :: in(b, n.indexes) ==> 0 <= n.indexes[b] && n.indexes[b] <= rangeindex && n.children[n.indexes[b]].segment.Type == 0
 //
 //@ fn node.newChild
-//@   requires n != nil && n.root != nil && segOK(s) && len(s.Value) > 0
+//@   requires node: n != nil && allocated(n) && n.root != nil
+//@   requires seg: segOK(s) && len(s.Value) > 0
+//@   requires sep: sepOK()
 //@   nopanic
 //@   modifies tree.node.children: n
+//@   ensures [C03,C05] sep: sepOK()
+//@   ensures [C03,C05] own-array: fresh(n.children)
 //@   ensures [C03] fresh: result != nil && fresh(result) && allocated(result) && result.root == n.root && result.parent == n && result.segment == s &&
 //@        result.pattern == n.pattern + s.Value && result.handlers == nil && result.indexes == nil && len(result.children) == 0 && result.methodIndex == 0
 //@   ensures [C03] appended: len(n.children) == old(len(n.children)) + 1 && n.children[old(len(n.children))] == result &&
 //@        (forall i int :: 0 <= i && i < old(len(n.children)) ==> n.children[i] == old(n.children[i]))
 //
 //@ fn removeNodes
+//@   modifies @nodes
 //@   requires forall i int :: 0 <= i && i < len(nodes) ==> nodes[i] != nil && nodes[i].segment != nil
 //@   nopanic
-//@   ensures [C03] shorter: len(result) == len(nodes) || len(result) == len(nodes) - 1
+//@   ensures [C03] shorter: (len(result) == len(nodes) || len(result) == len(nodes) - 1) && arr(result) == arr(nodes)
 //@   ensures [C03] subseq: forall k int :: 0 <= k && k < len(result) ==> (result[k] == old(nodes[k]) || result[k] == old(nodes[k + 1]))
 //@   ensures [C03] removed: len(result) == len(nodes) - 1 ==> (exists i int :: 0 <= i && i < len(nodes) && old(nodes[i]).segment.Value == pattern &&
 //@        (forall k int :: 0 <= k && k < i ==> result[k] == old(nodes[k])) && (forall k int :: i <= k && k < len(result) ==> result[k] == old(nodes[k + 1])))
@@ -124,8 +144,77 @@ package tree
 //@   inv 1 [C03] nomatch: forall i int :: 0 <= i && i <= rangeindex ==> nodes[i].segment.Value != pattern
 //
 //@ fn node.sort
-//@   requires n != nil && kidsOK(n)
+//@   requires node: n != nil && allocated(n)
+//@   requires kids: kidsOK(n)
+//@   requires sep: sepOK()
 //@   modifies tree.node.indexes: n
+//@   modifies map[byte]int: n.indexes
+//@   ensures [C03,C05] sep: sepOK()
+//@   ensures [C03,C05] same-array: arr(n.children) == old(arr(n.children))
 //@   atcall slices.SortStableFunc [C05] elements: forall i int :: 0 <= i && i < len(arg0) ==> arg0[i] != nil && arg0[i].segment != nil && 0 <= arg0[i].segment.Type && arg0[i].segment.Type <= 3
 //@   ensures [C02,C03] kids: kidsOK(n) && sortedKinds(n) && idxOK(n) && len(n.children) == old(len(n.children))
 //@   ensures [C03] permutation: forall j int :: 0 <= j && j < len(n.children) ==> (exists k int :: 0 <= k && k < len(n.children) && n.children[k] == old(n.children[j]))
+
+// ---------------------------------------------------------------- node.go / tree.go: mutators keep every node safe
+
+//@ pred segsOK(segs []*syntax.Segment) = forall k int :: 0 <= k && k < len(segs) ==> segOK(segs[k]) && len(segs[k].Value) > 0
+//
+//@ fn splitNode
+//@   requires n != nil && allocated(n) && allSafe() && sepOK() && rootOK(n) && pos > 0 && n.parent != nil
+//@   requires [C05] cut: shapeOK(n.segment.Value[:pos]) && shapeOK(n.segment.Value[pos:])
+//@   requires nodes: nodeSafe(n) && nodeSafe(n.parent) && kidsOK(n.parent) && sortedKinds(n.parent) && parentOK(n)
+//@   cut syntax.Segment.Split 1 [C03,C05] split-kids: kidsOK(old(n.parent))
+//@   cut syntax.Segment.Split 1 [C03,C05] split-sorted: sortedKinds(old(n.parent))
+//@   cut syntax.Segment.Split 1 [C03,C05] split-sep: sepOK()
+//@   cut syntax.Segment.Split 1 [C03,C05] split-others: allSafeExcept(old(n.parent))
+//@   cut tree.node.newChild 1 [C03,C05] after-newchild: allSafeExcept(old(n.parent)) && kidsOK(old(n.parent)) && sepOK() && nodeSafe(n)
+//@   cut tree.node.sort 1 [C03,C05] after-sort-ret: allSafeExcept(old(n.parent)) && kidsOK(old(n.parent)) && sepOK()
+//@   ensures [C03,C05] ok: result1 == nil ==> result0 != nil && allocated(result0) && result0.root == n.root
+//@   ensures [C03,C05] safe: result1 == nil ==> allSafe()
+//@   ensures [C03,C05] sep: result1 == nil ==> sepOK()
+//@   ensures [C03] err: result1 != nil ==> result0 == nil
+//
+//@ fn node.addSegment
+//@   requires n != nil && allocated(n) && allSafe() && sepOK() && rootOK(n) && segOK(seg) && len(seg.Value) > 0
+//@   ensures [C03,C05] ok: result1 == nil ==> result0 != nil && allocated(result0) && result0.root == n.root
+//@   ensures [C03,C05] safe: result1 == nil ==> allSafe() && sepOK()
+//@   ensures [C03] err: result1 != nil ==> result0 == nil
+//@   inv 1 [C05] bound: -1 <= rangeindex && rangeindex < len(n.children)
+//@   inv 1 [C05] best: l >= 0 && (l > 0 ==> child != nil && allocated(child) && child.parent != nil && child.root == n.root && l <= len(child.segment.Value) && l <= len(seg.Value))
+//
+//@ fn node.getNode
+//@   requires n != nil && allocated(n) && allSafe() && sepOK() && rootOK(n) && len(segments) >= 1 && segsOK(segments)
+//@   ensures [C03,C05] ok: result1 == nil ==> result0 != nil && allocated(result0) && result0.root == n.root
+//@   ensures [C03,C05] safe: result1 == nil ==> allSafe() && sepOK()
+//@   ensures [C03] err: result1 != nil ==> result0 == nil
+//
+//@ fn Tree.getNode
+//@   requires treeOK(tree) && allSafe() && sepOK()
+//@   ensures [C03,C05] ok: result1 == nil ==> result0 != nil && allocated(result0) && result0.root == tree
+//@   ensures [C03,C05] safe: result1 == nil ==> allSafe() && sepOK()
+//@   ensures [C03] err: result1 != nil ==> result0 == nil
+//
+//@ fn node.clean
+//@   requires n != nil && allocated(n) && allSafe() && sepOK()
+//@   ensures [C03,C05] safe: allSafe() && sepOK()
+//@   inv 1 [C05] bound: -1 <= rangeindex && rangeindex < len(n.children) && allSafe() && sepOK()
+//@   inv 2 [C05] bound2: -1 <= rangeindex && rangeindex < len(dels)
+//@   inv 2 [C03,C05] kids: allSafeExcept(n) && sepOK() && kidsOK(n) && sortedKinds(n) && n.root != nil && allocated(n.root) && segOK(n.segment) && hmOK(n) && parentOK(n)
+//
+//@ fn Tree.Clean
+//@   requires treeOK(tree) && allSafe() && sepOK() && lockFree(tree)
+//@   ensures [C03,C05] safe: allSafe() && sepOK()
+//
+//@ fn Tree.Remove
+//@   requires treeOK(tree) && allSafe() && sepOK() && lockFree(tree)
+//@   ensures [C03,C05] safe: allSafe() && sepOK()
+//
+//@ fn Tree.Add
+//@   requires treeOK(tree) && allSafe() && sepOK() && lockFree(tree)
+//@   ensures [C03,C05] safe: result == nil ==> allSafe() && sepOK()
+//
+//@ fn New
+//@   requires allSafe() && sepOK() && icOK(i) && methodNotAllowedBuilder != nil && optionsBuilder != nil
+//@   maypanic
+//@   ensures [C03,C05] ok: treeOK(result) && fresh(result) && lockFree(result)
+//@   ensures [C03,C05] safe: allSafe() && sepOK()
